@@ -441,7 +441,7 @@ def let_init_of(f, var):
     return None
 
 
-@rule("M1", ["C11"], floor=1, doc="a bit of the by-reference compatibility mask is only set inside the branch where arg_layout_compatible answered true "
+@rule("M1", ["C11", "C10"], floor=1, doc="a bit of the by-reference compatibility mask is only set inside the branch where arg_layout_compatible answered true "
       "for that argument's native and effective schemas")
 def m1(facts, tier):
     from ..flow import parent_map
@@ -470,14 +470,14 @@ def m1(facts, tier):
                                 why = "set in the else-branch of the compatibility test" if not in_then else ""
                                 break
                             why = f"guarded by `{c['v'].split('#')[0]}` which is not the result of arg_layout_compatible"
-                yield ob(["C11"], "M1", "mask-set", "pass" if ok else "violation", where(f, x),
+                yield ob(["C11", "C10"], "M1", "mask-set", "pass" if ok else "violation", where(f, x),
                          "mask bit set only when arg_layout_compatible returned true" if ok else
                          f"compatibility mask bit is set {why}: arguments with possibly different layout are passed by pointer")
     if sites == 0:
-        yield ob(["C11"], "M1", "mask-set", "violation", "", "no site setting the compatibility mask found (anchor lost)")
+        yield ob(["C11", "C10"], "M1", "mask-set", "violation", "", "no site setting the compatibility mask found (anchor lost)")
 
 
-@rule("M2", ["C11"], floor=1, doc="arg_layout_compatible's general case decides on the *native* schemas of both sides (the memory layouts), "
+@rule("M2", ["C11", "C10"], floor=1, doc="arg_layout_compatible's general case decides on the *native* schemas of both sides (the memory layouts), "
       "via Schema::layout_compatible")
 def m2(facts, tier):
     f = facts.fns.get("savefile_abi::arg_layout_compatible")
@@ -499,11 +499,11 @@ def m2(facts, tier):
                                 args = [peel(z).get("v") for z in y["args"]]
                                 found = True
                                 ok = args == binds
-                                yield ob(["C11"], "M2", "fallback-native", "pass" if ok else "violation", where(f, y),
+                                yield ob(["C11", "C10"], "M2", "fallback-native", "pass" if ok else "violation", where(f, y),
                                          "general case compares the native schemas" if ok else
                                          f"general case calls layout_compatible on {args}, not on the native schemas of both sides")
     if not found:
-        yield ob(["C11"], "M2", "fallback-native", "violation", where(f), "no general-case call of Schema::layout_compatible on the native schemas found")
+        yield ob(["C11", "C10"], "M2", "fallback-native", "violation", where(f), "no general-case call of Schema::layout_compatible on the native schemas found")
 
 
 @rule("N5", ["C10", "C09"], floor=3, doc="connection creation rejects signature changes: argument counts are compared and diff_schema of every argument and of the "
